@@ -168,6 +168,11 @@ func init() {
 			{"depends_on": []any{"a"}, "if": "build.branch == 'main'", "x": map[string]any{"command": "nested"}},
 			{"name": "N", "id": "I", "steps": []any{}},
 			{"env": map[string]any{"A": "b"}, "agents": map[string]any{"queue": "q"}, "": map[string]any{"a": 1}},
+			// typed keys of the command step holding empty or null values: additional keys never change the decision
+			{"env": map[string]any{}, "cache": map[string]any{}, "agents": map[string]any{}},
+			{"signature": map[string]any{}, "matrix": map[string]any{}, "env": nil},
+			{"cache": nil, "matrix": nil, "signature": nil, "agents": nil},
+			{"env": map[string]any{}, "retry": []any{}, "label": ""},
 		}
 		for mask := 0; mask < 1024; mask++ {
 			for ti := -1; ti < len(types); ti++ {
